@@ -81,7 +81,27 @@ func NewLevelListFromDocument(fs storage.FileSystem, dataOwnership kv.DataOwners
 }
 
 func (ll *LevelList) Get(key []byte) (kv.Entry, error) {
-	for t := range ll.AllTablesForKey(key) {
+	// L0 tables overlap each other, so several may hold the key: the most
+	// recent version wins.
+	var newest kv.Entry
+	for t := range ll.l0TablesForKey(key) {
+		v, err := t.Get(key)
+		if err != nil {
+			if err == kv.ErrNotFound {
+				continue
+			}
+			return nil, fmt.Errorf("table %#v, %w", t, err)
+		}
+		if newest == nil || v.SeqNum() > newest.SeqNum() {
+			newest = v
+		}
+	}
+	if newest != nil {
+		return newest, nil
+	}
+
+	// Each deeper level only holds older data, so the first hit wins.
+	for t := range ll.deeperTablesForKey(key) {
 		v, err := t.Get(key)
 		if err != nil {
 			if err == kv.ErrNotFound {
@@ -183,7 +203,22 @@ func (ll *LevelList) DescendLevels(offsets ...int) iter.Seq[Level] {
 
 func (ll *LevelList) AllTablesForKey(key []byte) iter.Seq[*Table] {
 	return func(yield func(*Table) bool) {
-		// go through L0 and collect any table that might have the key
+		for t := range ll.l0TablesForKey(key) {
+			if !yield(t) {
+				return
+			}
+		}
+		for t := range ll.deeperTablesForKey(key) {
+			if !yield(t) {
+				return
+			}
+		}
+	}
+}
+
+// go through L0 and collect any table that might have the key
+func (ll *LevelList) l0TablesForKey(key []byte) iter.Seq[*Table] {
+	return func(yield func(*Table) bool) {
 		for t := range ll.At(0).AllTables() {
 			if t.RangeContainsKey(key) {
 				if !yield(t) {
@@ -191,7 +226,12 @@ func (ll *LevelList) AllTablesForKey(key []byte) iter.Seq[*Table] {
 				}
 			}
 		}
-		// go through each L1+ level and collect a table that might have the key
+	}
+}
+
+// go through each L1+ level and collect a table that might have the key
+func (ll *LevelList) deeperTablesForKey(key []byte) iter.Seq[*Table] {
+	return func(yield func(*Table) bool) {
 		for level := range ll.DescendLevels(1) {
 			levelTables := level.tables.Slice()
 			foundIndex, ok := sliceu.SearchUnique(levelTables, key, (*Table).RangeKeyCompare)
